@@ -63,7 +63,8 @@ enum verif_kind {
 	VK_TERM_PROCESS,   ///< a=lp, b=bits of the new termination_t, c=lps_to_end afterwards
 	VK_TERM_ROLLBACK,  ///< a=lp, b=bits of the old termination_t, c=keep
 	VK_RECV_REMOTE,    ///< a=msg (event received from another rank, id already stripped of the colour bits)
-	VK_RECV_REMOTE_ANTI ///< a=msg (anti-message received from another rank)
+	VK_RECV_REMOTE_ANTI, ///< a=msg (anti-message received from another rank)
+	VK_NODE_PHASE      ///< node level of the GVT round: a=1 flip(b=new colour) 2 report(b=last) 3 collective(b=to receive) 4 poll(b=value read, c=added) 5 done
 };
 
 /// The bit pattern of a double, for tracing time stamps
